@@ -37,6 +37,13 @@ Theorem c13_equal_is_numeric : forall a b : dec, equal_num a b = dec_eqb a b.
 Proof. exact equal_num_spec. Qed.
 Print Assumptions c13_equal_is_numeric.
 
+(* the rendering is the canonical decimal numeral - optional minus sign, integer digits without a superfluous leading
+   zero, and only if needed a point and fraction digits ending in a non-zero digit: no exponent notation, no
+   trailing zeros, no plus sign, no spaces, never minus zero *)
+Theorem c13_render_canonical_form : forall d : dec, canonical_text (render d).
+Proof. exact render_canonical_text. Qed.
+Print Assumptions c13_render_canonical_form.
+
 (* ================================================================================================ *)
 (* datetimes, dates, times.  An instant is a number of nanoseconds since the unix epoch; a time zone is ANY function
    [offset] from unix seconds to the UTC offset (seconds) in force (universally quantified: no zone data is assumed).
